@@ -300,6 +300,8 @@ var c12Skels = []string{
 	// directives with holes
 	"set ?", "set ??", "set  ?", "set ? ?", "set ?? ?", "set keymap ?", "set editing-mode ?", "set bell-style ??",
 	"set history-size ?", "set history-size ??", "set convert-meta ?",
+	// the same variable set more than once (the type kept from the first set decides the second)
+	"set zz ?\nset zz ?", "set zz ??\nset zz x", "set history-size ?\nset history-size ?", "set zz ?\n$if ?\nset zz ?\n$endif",
 	"$?", "$if ?", "$if ??", "$if mode=?", "$if term=?", "$else?", "$endif?", "$include ?", "$include ~/?", "$?? ?",
 	"$if mode=?\n$else\n\"a\": x\n$endif", "$endif\n$else\n?", "$if ?\n$if ?\n$endif",
 	"\"?", "\"?\"", "\"?\":", "\"?\": ?", "\"??\": ?", "\"\\?\": x", "\"\\??\": x", "\"\\C-?\": x", "\"\\M-?\": x", "\"\\M-\\C-?\": x",
@@ -792,9 +794,9 @@ func init() {
 				m := "3"
 				add("some-binding-fires", "lens", sh, "m", m, "km", "vi-insert")
 				add("some-binding-fires", "lens", sh, "m", m, "km", "vi-command")
-				add("some-binding-fires", "lens", sh, "m", m, "local", "visual")
-				add("some-binding-fires", "lens", sh, "m", m, "local", "vi-opp", "km", "vi-command")
-				add("some-binding-fires", "lens", sh, "m", m, "local", "menu-select")
+				add("local-attempt-ended-by-a-key", "lens", sh, "m", m, "local", "visual")
+				add("local-attempt-ended-by-a-key", "lens", sh, "m", m, "local", "vi-opp", "km", "vi-command")
+				add("local-attempt-ended-by-a-key", "lens", sh, "m", m, "local", "menu-select")
 				if tier == "thorough" {
 					add("macro-fires", "lens", sh, "m", m, "km", "vi-command", "mac", "1")
 				}
@@ -805,7 +807,7 @@ func init() {
 			"the emacs keymap is replaced by a symbolic table of T bindings (sequence lengths per job, keys symbolic over {a, b, ESC, C-x, M-a}), each bound to its own probe command; m symbolic keys over {a, b, ESC, C-x} are typed one per read in a real Readline call",
 			"only the first resolution is compared (what happens to the key that ends a failed or shortened attempt is C05's subject)",
 			"macro jobs: the first binding is a macro whose keys are the second binding's sequence; when the macro's sequence resolves and nothing extends the second sequence, the second binding's probe must run at the key that completed the macro's sequence",
-			"keymap jobs: the table replaces vi-insert / vi-command (made the main keymap), or a local keymap (visual, vi-opp, menu-select; made active in front of a main keymap holding one never-typed binding); in those keymaps ESC arrives in the same read as the key that follows it (a lone ESC leaves insert mode / cancels the local mode by design; the two are told apart by timing only) and a command is attributed to the read being consumed when it ran; isearch is not covered (needs a live search)",
+			"keymap jobs: the table replaces vi-insert / vi-command (made the main keymap), or a local keymap (visual, vi-opp, menu-select; made active in front of a main keymap that binds each plain key of the alphabet to a probe of its own; asserted there in addition: a main probe only runs for its own key, and the key that rules out a pending local prefix is not lost — it runs its own local binding or its main-keymap probe); in those keymaps ESC arrives in the same read as the key that follows it (a lone ESC leaves insert mode / cancels the local mode by design; the two are told apart by timing only) and a command is attributed to the read being consumed when it ran; isearch is not covered (needs a live search)",
 		}, stepAssumptions[1:]...),
 		Stubs:  []string{"tty ioctls", "stdin = zzverif.Script", "stdout discarded"},
 		Bounds: map[string]string{"quick": "emacs: tables of <= 2 sequences of length <= 2, m <= 3 keys; macro tables 11/12/21; vi-insert, vi-command, visual, vi-opp, menu-select: table shape 12, m = 3", "thorough": "emacs: tables of <= 3 sequences of length <= 3, m <= 4 keys; macro tables up to 3 sequences; other keymaps: shapes 12, 22, 112, m = 3"},
